@@ -82,11 +82,14 @@ def shapeRel : StepRel where
   setRegs := fun rt g => Rt.setRegs_shape rt g
   setGlobal := fun rt k v ls h => setGlobal_shape _ _ k v h
   setIndex := fun rt k v ls h => setIndex_shape _ _ k v h
-  frames := by
-    intro ls rt rt' h
-    simp only [Stack.shape, List.map_append] at h ⊢
-    rw [List.map_drop, h]
-    simp
+  framePlain := by
+    intro d rt rt' h
+    simp only [Stack.shape, List.map_cons] at h ⊢
+    rw [List.map_drop, h]; simp
+  frameSandbox := by
+    intro root rt rt' h
+    simp only [Stack.shape, List.map_cons] at h ⊢
+    rw [List.map_drop, h]; simp
 
 /-- **Frames are balanced**: rendering any template leaves the runtime with exactly the frames
 (number and kinds) it started with — whatever the outcome, whatever the sink. -/
